@@ -49,6 +49,11 @@ def run(rep, tier, seed):
         pname, tspan, optkw, specs = RC.gen_case(rng, with_events=True, multi=multi)
         if pname == "vdp":
             pname = "ramp"
+        if k % 5 == 4:
+            # a single NON-terminal event close to tend (inside the last accepted step): only a terminal event may end the run
+            span_ = float(tspan[-1] - tspan[0])
+            specs = [(float(tspan[-1] - span_ * float(rng.choice([1e-3, 1e-2, 3e-2]))), 0, False)]
+            hist["nonterminal_near_tend"] = hist.get("nonterminal_near_tend", 0) + 1
         dae, y0 = P[pname]
         case = dict(problem=pname, tspan=tspan if len(tspan) < 12 else [tspan[0], "...", tspan[-1], len(tspan)], opt=optkw, events=specs)
         sol, tr = RC.run_rodas(dae, y0, tspan, optkw, specs)
@@ -100,6 +105,8 @@ def run(rep, tier, seed):
         if not on_grid:
             if [i for _, i in spec] != ie:
                 bad.append(f"reported components {ie}, the permitted sign changes in the span are {[i for _, i in spec]} (in time order)")
+            if not any(specs[i][2] for i in ie) and getattr(sol.stats, "ret", None) != "failed" and T[-1] != tend:
+                bad.append(f"no terminal event was reported but the run ended at {T[-1]!r}, not at tend {tend!r}")
             if spec and specs[spec[-1][1]][2]:
                 if len(te) and (T[-1] != te[-1]):
                     bad.append(f"terminal event at {te[-1]!r} but the last returned time is {T[-1]!r}")
